@@ -2,7 +2,8 @@
    written from the property text in plain Z arithmetic (no reference to Gen). *)
 From Coq Require Import ZArith List String Bool.
 From NadaV.PyMini Require Import PyMini.
-From NadaV.Model Require Import Rules Corr.
+From NadaV.Model Require Import Rules Corr Surface.
+From NadaV.Spec Require Import TypingSpec.
 Import ListNotations.
 Open Scope Z_scope.
 
@@ -100,3 +101,51 @@ Definition fold_case_agrees (G : genv) (c : fold_case) : bool :=
 
 Definition fold_mismatches (G : genv) (cs : list fold_case) : list Z :=
   indices_where (fun c => negb (fold_case_agrees G c)) cs 0.
+
+(* the value a literal wrapper records: booleans as 0 / 1 *)
+Definition lit_norm (b : base) (v : Z) : Z := match b with BBool => if Z.eqb v 0 then 0 else 1 | _ => v end.
+
+(* ---- program level: the exact value of a literal-only expression of a surface program, through any number of
+   intermediate variables (None: not literal-only, or outside what the text constrains) *)
+Definition lval := option (base * Z).
+
+Definition compat (o : op) (ba bb : base) : bool :=
+  match o with
+  | OLShift | ORShift => numeric ba && base_eqb bb BUInt
+  | _ => base_eqb ba bb
+  end.
+
+Definition exact_bin (o : op) (ba bb : base) (x y : Z) : option (base * Z) :=
+  if compat o ba bb then
+    match exact2 o ba x y with
+    | Some r => Some r
+    | None =>
+        if numeric ba then
+          match o with
+          | ODiv => if y =? 0 then None else Some (ba, x / y)
+          | OMod => if y =? 0 then None else Some (ba, x mod y)
+          | _ => None
+          end
+        else None
+    end
+  else None.
+
+Definition lit_rhs (σ : list (string * lval)) (r : rhs) : lval :=
+  match r with
+  | RLit b v => Some (b, lit_norm b v)
+  | RBin o a b =>
+      match assoc a σ, assoc b σ with
+      | Some (Some (ba, x)), Some (Some (bb, y)) => exact_bin o ba bb x y
+      | _, _ => None
+      end
+  | RNot a => match assoc a σ with Some (Some (BBool, x)) => Some (BBool, if x =? 0 then 1 else 0) | _ => None end
+  | RRAdd k a => match assoc a σ with Some (Some (b, x)) => if numeric b then Some (b, x + k) else None | _ => None end
+  | _ => None
+  end.
+
+Fixpoint lit_stmts (ss : list stmt) (σ : list (string * lval)) : list (string * lval) :=
+  match ss with
+  | SLet x r :: rest => lit_stmts rest ((x, lit_rhs σ r) :: σ)
+  | _ => σ
+  end.
+
